@@ -546,6 +546,30 @@ func C09Gen(r *Run) {
 		}
 	}
 
+	// a FAILED insertion (one indexed field holds a value that is no term: the transaction is rolled
+	// back on bolt and badger) followed by a successful one with the same, so far unseen, term: what
+	// the failed call did must leave no trace, not in the store and not in the index object.  The
+	// fields of a document are visited in map order, so the good field is handled before the bad one
+	// only in some of the rounds: several rounds, several fields.
+	emit(reset)
+	for _, f := range []string{"a", "b.c", "ab"} { // not "b": its value is a map in these documents
+		emit(map[string]interface{}{"op": "addField", "f": f})
+	}
+	for i, t := range []interface{}{"x", "y", "xy", "1", 2.0, -1.5, "x", 2.0} {
+		bad := c09Doc("a", t, "ab", t, "b", map[string]interface{}{"c": true})
+		if i%2 == 1 {
+			bad = c09Doc("a", t, "ab", []interface{}{1.0}, "b", map[string]interface{}{"c": t})
+		}
+		emit(map[string]interface{}{"op": "addDoc", "d": fmt.Sprintf("f%d", i), "doc": bad})
+		emit(map[string]interface{}{"op": "addDoc", "d": fmt.Sprintf("g%d", i), "doc": c09Doc("a", t, "ab", t, "b", map[string]interface{}{"c": t})})
+		emit(c09QueryOp(c09FieldsRnd, i%2 == 0, 1, []interface{}{t, "x", 2.0}, [][2]float64{{-100, 100}}))
+		emit(c09QueryOp(c09FieldsRnd, true, 0, []interface{}{t}, nil))
+		if i == 5 {
+			emit(map[string]interface{}{"op": "removeDoc", "d": "g1"})
+		}
+	}
+	r.Count("failed-then-added")
+
 	// a field with more distinct number terms than the result channel of FieldTermNumberRange holds
 	emit(reset)
 	emit(map[string]interface{}{"op": "addField", "f": "a"})
